@@ -22,8 +22,12 @@ def test(filter_=""):
 # the seed dir must survive `git clean`
 clean(); apply("demo.diff")
 demo_files = sh("git status --porcelain").stdout
-m = re.search(r"^\+.*mod (\w+);", open(os.path.join(seed, "demo.diff")).read(), re.M)
+dd = open(os.path.join(seed, "demo.diff")).read()
+m = re.search(r"^\+.*mod (\w+);", dd, re.M)
 filt = m.group(1) if m else "seed_demo"
+mi = re.search(r"^\+\+\+ b/tests/(\w+)\.rs", dd, re.M)
+if mi and not m:
+    filt = "--test " + mi.group(1)      # the demo is an integration test target
 o1 = test(filt)
 apply("patch.diff")
 o2 = test(filt)
